@@ -39,7 +39,7 @@ PH1 = _copy.copy(CTM)
 PH1.fields = dict(CTM.fields, _path_history=T.oneof(T.list(_PT), T.list(_PT, _PT)))
 from pyvc.contracts import REGISTRY as _R
 _old = _R.pop(f"{CT}:CAMTransmissionManagement._get_path_history")
-contract(f"{CT}:CAMTransmissionManagement._get_path_history", props=["C11"],
+contract(f"{CT}:CAMTransmissionManagement._get_path_history", props=["C11"], bound="path history of 1..2 points",
          shapes={"self": PH1, "current_tpv": _TPV}, returns=T.opaque("any_list"),
          requires=["now() >= 0"], mode="int", spec_module="spec_msg", float_as_real=True, frame_check=False, engine_setup=_setup10,
          callsite_ensures=[],
